@@ -58,7 +58,7 @@ Section Ins.
 
   (* ---------------------------------------------------------------- phase 1: copying the nodes *)
   Section Phase1.
-    Variables (A B : hugr) (parent : option nid).
+    Variables (A B : hugr) (parent : option nid) (om : mapping).
     Let p := match parent with Some x => x | None => root A end.
     Hypothesis HpA : get_node A p <> None.
     Hypothesis HrootB : exists rb, get_node B (root B) = Some rb /\ nd_parent rb = None.
@@ -95,7 +95,7 @@ Section Ins.
     (* one node of B whose parent is already copied (or which is the root) *)
     Lemma ins_one Ak mk c b : P1 Ak mk -> get_node B c = Some b -> mget mk c = None ->
       (forall q, nd_parent b = Some q -> mget mk q <> None) -> (nd_parent b = None -> c = root B) ->
-      exists A1 n', insert_chain Ak B mk parent [c] = (A1, dset Nat.eqb mk c n', Ok) /\ P1 A1 (dset Nat.eqb mk c n').
+      exists A1 n', insert_chain om Ak B mk parent [c] = (A1, dset Nat.eqb mk c n', Ok) /\ P1 A1 (dset Nat.eqb mk c n').
     Proof.
       intros HP Hb Hc Hpar Hcroot. destruct HrootB as (rb & Erb & Prb).
       cbn [insert_chain]. rewrite Hb.
@@ -115,9 +115,16 @@ Section Ins.
           destruct (p1_copy _ _ HP q x Ex) as (_ & bq & dq & _ & E & _). eauto.
         - destruct (get_node A p) as [d|] eqn:Ed; [|congruence]. rewrite (p1_old _ _ HP p d Ed). eauto. }
       destruct Hpplive as (ppd & Eppd).
-      unfold add_node. rewrite Hpp.
-      destruct (add_node_effect Ak (nd_op b) pp (Some (nd_outs b)) (nd_meta b) ppd (p1_free _ _ HP) Eppd)
+      unfold add_node. rewrite prefer_root, Hpp.
+      destruct (add_node_effect (prefer (mget om c) Ak) (nd_op b) pp (Some (nd_outs b)) (nd_meta b) ppd
+                  (FreeOK_prefer _ _ (p1_free _ _ HP)) ltac:(rewrite prefer_get; exact Eppd))
         as (A1 & n' & Hadd & Hdead & Hget & Hlk & Hrt & HF1).
+      rewrite prefer_get in Hdead. rewrite prefer_links in Hlk. rewrite prefer_root in Hrt.
+      assert (Hget' : forall x, get_node A1 x =
+                 if Nat.eqb x n' then Some (set_outs (new_node (nd_op b) pp (nd_meta b)) (zdflt (Some (nd_outs b))))
+                 else if Nat.eqb x pp then Some (add_child n' ppd) else get_node Ak x).
+      { intros x. rewrite Hget. now rewrite prefer_get. }
+      clear Hget. rename Hget' into Hget.
       rewrite Hadd. cbn [insert_chain]. exists A1, n'. split; [reflexivity|].
       assert (HnA : get_node A n' = None).
       { destruct (get_node A n') as [d|] eqn:E; [|reflexivity]. rewrite (p1_old _ _ HP n' d E) in Hdead. discriminate. }
@@ -190,18 +197,18 @@ Section Ins.
     Qed.
 
     Lemma insert_chain_app l1 : forall Ak mk l2,
-      insert_chain Ak B mk parent (l1 ++ l2) =
-      match insert_chain Ak B mk parent l1 with
-      | (A1, m1, Ok) => insert_chain A1 B m1 parent l2
+      insert_chain om Ak B mk parent (l1 ++ l2) =
+      match insert_chain om Ak B mk parent l1 with
+      | (A1, m1, Ok) => insert_chain om A1 B m1 parent l2
       | r => r
       end.
     Proof.
       induction l1 as [|c r IH]; intros Ak mk l2; cbn [app insert_chain]; [reflexivity|].
       destruct (get_node B c) as [d|]; [|reflexivity].
       destruct (nd_parent d) as [bp|]; [destruct (mget mk bp) as [x|]; [|reflexivity]|].
-      - destruct (add_node Ak (nd_op d) (Some x) (Some (nd_outs d)) (nd_meta d)) as [[A1 n] [| | | |]]; try reflexivity.
+      - destruct (add_node (prefer (mget om c) Ak) (nd_op d) (Some x) (Some (nd_outs d)) (nd_meta d)) as [[A1 n] [| | | |]]; try reflexivity.
         apply IH.
-      - destruct (add_node Ak (nd_op d) parent (Some (nd_outs d)) (nd_meta d)) as [[A1 n] [| | | |]]; try reflexivity.
+      - destruct (add_node (prefer (mget om c) Ak) (nd_op d) parent (Some (nd_outs d)) (nd_meta d)) as [[A1 n] [| | | |]]; try reflexivity.
         apply IH.
     Qed.
 
@@ -254,7 +261,7 @@ Section Ins.
     Definition mono (m m1 : mapping) : Prop := forall y v, mget m y = Some v -> mget m1 y = Some v.
 
     Lemma chain_ok m pre cur : Chain m pre cur -> forall Ak, P1 Ak m ->
-      exists A1 m1, insert_chain Ak B m parent pre = (A1, m1, Ok) /\ P1 A1 m1 /\ mono m m1 /\
+      exists A1 m1, insert_chain om Ak B m parent pre = (A1, m1, Ok) /\ P1 A1 m1 /\ mono m m1 /\
         (forall y, mget m1 y <> None -> mget m y <> None \/ In y pre) /\
         (forall c, cur = Some c -> mget m1 c <> None).
     Proof.
@@ -282,7 +289,7 @@ Section Ins.
     Qed.
 
     Lemma nodes_ok todo : forall Ak mk, P1 Ak mk -> (forall n, In n todo -> get_node B n <> None) ->
-      exists A1 m1, insert_nodes Ak B mk parent todo = (A1, m1, Ok) /\ P1 A1 m1 /\ mono mk m1 /\
+      exists A1 m1, insert_nodes om Ak B mk parent todo = (A1, m1, Ok) /\ P1 A1 m1 /\ mono mk m1 /\
         (forall n, In n todo -> mget m1 n <> None).
     Proof.
       induction todo as [|n rest IH]; intros Ak mk HP Hlive; cbn [insert_nodes].
@@ -407,15 +414,15 @@ Section Ins.
       destruct (T2 n d E Hne) as (p0 & pd & P0 & _). congruence.
   Qed.
 
-  Lemma phase12 (A B : hugr) (parent : option nid) :
+  Lemma phase12 (om : mapping) (A B : hugr) (parent : option nid) :
     let p := match parent with Some x => x | None => root A end in
     Inv A -> Inv B -> WF B -> get_node A p <> None ->
-    exists A1 A2 m, insert_nodes A B [] parent (iter_nodes B) = (A1, m, Ok) /\
+    exists A1 A2 m, insert_nodes om A B [] parent (iter_nodes B) = (A1, m, Ok) /\
                     copy_children A1 B m (iter_nodes B) = (A2, Ok) /\ Shape A B p m A2.
   Proof.
     intros p HIA HIB (depth & Hdepth) HpA. pose proof HIB as (_ & _ & _ & HTB).
     destruct (tree_facts B HTB) as (HrootB & Hparlive & Honlyroot).
-    destruct (nodes_ok A B parent HpA HrootB depth Hdepth Hparlive Honlyroot (iter_nodes B) A []
+    destruct (nodes_ok A B parent om HpA HrootB depth Hdepth Hparlive Honlyroot (iter_nodes B) A []
                 (P1_init A B parent HIA)) as (A1 & m & Hins & HP & _ & Hall).
     { intros n Hn. now apply iter_nodes_In. }
     fold p in HP.
@@ -669,13 +676,13 @@ Section Ins.
     if_only : forall x, get_node A' x <> None -> get_node A x <> None \/ exists c, mget m c = Some x
   }.
 
-  Theorem insert_ok (A B : hugr) (parent : option nid) :
+  Theorem insert_ok (om : mapping) (A B : hugr) (parent : option nid) :
     let p := match parent with Some x => x | None => root A end in
     Inv A -> Inv B -> WF B -> get_node A p <> None ->
-    exists A' m, insert_hugr A B parent = (A', m, Ok) /\ Inv A' /\ IsoFrame A B p m A'.
+    exists A' m, insert_hugr om A B parent = (A', m, Ok) /\ Inv A' /\ IsoFrame A B p m A'.
   Proof.
     intros p HIA HIB HWF HpA.
-    destruct (phase12 A B parent HIA HIB HWF HpA) as (A1 & A2 & m & Hins & Hcc & HS). fold p in HS.
+    destruct (phase12 om A B parent HIA HIB HWF HpA) as (A1 & A2 & m & Hins & Hcc & HS). fold p in HS.
     pose proof (shape_inv A B p m A2 HIA HIB HpA HS) as HI2.
     destruct (copy_links_ok A B p m A2 HS (q_links B) A2) as (A3 & Hcl & (HI3 & Hroot3 & Hsame3) & HP3).
     - split; [exact HI2|]. split; [reflexivity|]. intros x. destruct (get_node A2 x); [|exact I].
@@ -948,23 +955,32 @@ Section Ins.
   (* a call is inside the property's guard when the specification accepts it on the abstraction of the state:
      live node arguments, offsets >= -1, deletion of a non-root leaf; insert_hugr of a HUGR that was itself
      built inside the guard, under a live parent *)
-  Fixpoint bguarded (h : hugr) (cs : list (bcmd Op Meta)) : Prop :=
+  (* the free-index choices come with the commands (model/Graph.v, [prefer]): a basic command is paired with the
+     choice for its add_node (any value; only an admissible one has an effect), an insert_hugr with the mapping
+     that names the choices for its copies.  Every statement below is for EVERY such oracle. *)
+  Lemma WF_prefer pick (h : hugr) : WF h -> WF (prefer pick h).
+  Proof. destruct pick; auto. Qed.
+  Lemma abs_prefer pick (h : hugr) : abs (prefer pick h) = abs h.
+  Proof. destruct pick; reflexivity. Qed.
+  Fixpoint bguarded (h : hugr) (cs : list (bcmd Op Meta * ret)) : Prop :=
     match cs with
     | [] => True
-    | c :: r => let '(h', rt, _) := bstep h c in (exists g', s_bstep (abs h) c rt = Next g') /\ bguarded h' r
+    | (c, pick) :: r =>
+        let '(h', rt, _) := bstep_at pick h c in (exists g', s_bstep (abs h) c rt = Next g') /\ bguarded h' r
     end.
-  Definition guarded1 (h : hugr) (c : cmd Op Meta) : Prop :=
+  Definition guarded1 (pick : ret) (h : hugr) (c : cmd Op Meta) : Prop :=
     match c with
-    | Basic b => let '(_, rt, _) := bstep h b in exists g', s_bstep (abs h) b rt = Next g'
+    | Basic b => let '(_, rt, _) := bstep_at pick h b in exists g', s_bstep (abs h) b rt = Next g'
     | Insert o m _ src p =>
-        bguarded (init o m) (map fst src) /\ get_node h (match p with Some x => x | None => root h end) <> None
+        bguarded (init o m) src /\ get_node h (match p with Some x => x | None => root h end) <> None
     end.
-  Fixpoint guarded (h : hugr) (cs : list (cmd Op Meta)) : Prop :=
+  Fixpoint guarded (h : hugr) (cs : list (cmd Op Meta * ret)) : Prop :=
     match cs with
     | [] => True
-    | c :: r => guarded1 h c /\ guarded (fst (fst (step h c))) r
+    | (c, pick) :: r => guarded1 pick h c /\ guarded (fst (fst (step pick h c))) r
     end.
-  Definition run (h : hugr) (cs : list (cmd Op Meta)) : hugr := fold_left (fun s c => fst (fst (step s c))) cs h.
+  Definition run (h : hugr) (cs : list (cmd Op Meta * ret)) : hugr :=
+    fold_left (fun s c => fst (fst (step (snd c) s (fst c)))) cs h.
 
   Lemma bstep_inv h c h' rt r : Inv h -> WF h -> bstep h c = (h', rt, r) ->
     (exists g', s_bstep (abs h) c rt = Next g') -> r = Ok /\ Inv h' /\ WF h'.
@@ -973,28 +989,34 @@ Section Ins.
     rewrite Hs in H. destruct H as (Hr & HI' & _). split; [exact Hr|]. split; [exact HI'|].
     exact (bstep_WF h c h' rt r g' HI HW Hb Hs).
   Qed.
-  Lemma brun_inv cs : forall h, Inv h -> WF h -> bguarded h cs -> Inv (brun h cs) /\ WF (brun h cs).
+  Lemma bstep_at_inv pick h c h' rt r : Inv h -> WF h -> bstep_at pick h c = (h', rt, r) ->
+    (exists g', s_bstep (abs h) c rt = Next g') -> r = Ok /\ Inv h' /\ WF h'.
   Proof.
-    induction cs as [|c r IH]; intros h HI HW HG; cbn [brun fold_left]; [auto|].
-    cbn [bguarded] in HG. destruct (bstep h c) as [[h' rt] res] eqn:E. destruct HG as [Hg HG].
-    destruct (bstep_inv h c h' rt res HI HW E Hg) as (_ & HI' & HW'). cbn [fst]. now apply IH.
+    intros HI HW Hb Hs. unfold bstep_at in Hb. rewrite <- (abs_prefer (pick_of pick) h) in Hs.
+    exact (bstep_inv _ c h' rt r (Inv_prefer _ h HI) (WF_prefer _ h HW) Hb Hs).
+  Qed.
+  Lemma brun_inv cs : forall h, Inv h -> WF h -> bguarded h cs -> Inv (brun_at h cs) /\ WF (brun_at h cs).
+  Proof.
+    induction cs as [|[c pick] r IH]; intros h HI HW HG; cbn [brun_at fold_left]; [auto|].
+    cbn [bguarded] in HG. cbn [fst snd]. destruct (bstep_at pick h c) as [[h' rt] res] eqn:E. destruct HG as [Hg HG].
+    destruct (bstep_at_inv pick h c h' rt res HI HW E Hg) as (_ & HI' & HW'). cbn [fst]. now apply IH.
   Qed.
 
-  Theorem step_inv h c : Inv h -> WF h -> guarded1 h c ->
-    snd (step h c) = Ok /\ Inv (fst (fst (step h c))) /\ WF (fst (fst (step h c))).
+  Theorem step_inv pick h c : Inv h -> WF h -> guarded1 pick h c ->
+    snd (step pick h c) = Ok /\ Inv (fst (fst (step pick h c))) /\ WF (fst (fst (step pick h c))).
   Proof.
     intros HI HW HG. destruct c as [b|o m br src p]; cbn [step guarded1] in *.
-    - destruct (bstep h b) as [[h' rt] r] eqn:E. cbn [fst snd]. exact (bstep_inv h b h' rt r HI HW E HG).
+    - destruct (bstep_at pick h b) as [[h' rt] r] eqn:E. cbn [fst snd]. exact (bstep_at_inv pick h b h' rt r HI HW E HG).
     - destruct HG as [HGs Hp]. destruct (init_inv o m) as [HI0 _].
-      destruct (brun_inv (map fst src) (init o m) HI0 (init_WF o m) HGs) as [HIB HWB].
-      destruct (insert_ok h (brun (init o m) (map fst src)) p HI HIB HWB Hp) as (A' & mp & Hins & HI' & HIF).
+      destruct (brun_inv src (init o m) HI0 (init_WF o m) HGs) as [HIB HWB].
+      destruct (insert_ok (om_of pick) h (brun_at (init o m) src) p HI HIB HWB Hp) as (A' & mp & Hins & HI' & HIF).
       rewrite Hins. cbn [fst snd]. split; [reflexivity|]. split; [exact HI'|].
       exact (insert_WF h _ _ mp A' HI HIB Hp HW HWB HIF).
   Qed.
   Theorem run_inv cs : forall h, Inv h -> WF h -> guarded h cs -> Inv (run h cs) /\ WF (run h cs).
   Proof.
-    induction cs as [|c r IH]; intros h HI HW HG; cbn [run fold_left]; [auto|].
-    destruct HG as [Hg HG]. destruct (step_inv h c HI HW Hg) as (_ & HI' & HW'). now apply IH.
+    induction cs as [|[c pick] r IH]; intros h HI HW HG; cbn [run fold_left]; [auto|].
+    destruct HG as [Hg HG]. cbn [fst snd]. destruct (step_inv pick h c HI HW Hg) as (_ & HI' & HW'). now apply IH.
   Qed.
   Theorem store_inv_reachable o m cs : guarded (init o m) cs -> Inv (run (init o m) cs) /\ WF (run (init o m) cs).
   Proof. intros HG. destruct (init_inv o m) as [HI _]. exact (run_inv cs _ HI (init_WF o m) HG). Qed.
@@ -1207,14 +1229,14 @@ Section Ins.
     - intros H. destruct (mget m c) eqn:E; [|congruence]. eapply (dget_In Nat.eqb Nat.eqb_spec); eassumption.
   Qed.
 
-  Theorem insert_rep (A B : hugr) gA gB (parent : option nid) :
+  Theorem insert_rep (om : mapping) (A B : hugr) gA gB (parent : option nid) :
     let p := match parent with Some x => x | None => root A end in
     Inv A -> Inv B -> WF B -> Rep A gA -> Rep B gB -> get_node A p <> None ->
-    exists A' m, insert_hugr A B parent = (A', m, Ok) /\ Inv A' /\
+    exists A' m, insert_hugr om A B parent = (A', m, Ok) /\ Inv A' /\
                  mapping_ok gA gB m = true /\ Rep A' (s_insert gA gB m p).
   Proof.
     intros p HIA HIB HWF HRA HRB HpA.
-    destruct (phase12 A B parent HIA HIB HWF HpA) as (A1 & A2 & m & Hins & Hcc & HS). fold p in HS.
+    destruct (phase12 om A B parent HIA HIB HWF HpA) as (A1 & A2 & m & Hins & Hcc & HS). fold p in HS.
     pose proof (shape_inv A B p m A2 HIA HIB HpA HS) as HI2.
     pose proof (shape_rep A B gA gB p m A2 HIA HIB HRA HRB HpA HS) as HR2.
     destruct (copy_links_rep m (q_links B) A2 _ HI2 HR2) as (A3 & Hcl & HI3 & HR3 & _).
@@ -1244,26 +1266,33 @@ Section Ins.
     - rewrite s_insert_eq. eapply Rep_fold_perm; [|exact HR3]. apply Permutation_map. now destruct HRB as (_ & _ & HL & _).
   Qed.
 
-  (* one command of a full history (insert_hugr carries the model's own trace of the source history) *)
+  (* one command of a full history: insert_hugr carries the history of the source with the values returned while
+     building it (what the harness records), and these are the model's own under the choices they name *)
   Definition annot_ok (c : cmd Op Meta) : Prop :=
     match c with
     | Basic _ => True
-    | Insert o m br src _ => br = 0 /\ src = trace (init o m) (map fst src)
+    | Insert o m br src _ => br = 0 /\ src = trace_at (init o m) src
     end.
 
-  Lemma brun_refines_wf cs : forall h g g', Inv h -> WF h -> Rep h g ->
-    s_brun g (trace h cs) = Next g' -> Inv (brun h cs) /\ WF (brun h cs) /\ Rep (brun h cs) g'.
+  Lemma bstep_at_WF_rep pick h g c h' rt r g' : Inv h -> Rep h g -> WF h -> bstep_at pick h c = (h', rt, r) ->
+    s_bstep g c rt = Next g' -> WF h'.
   Proof.
-    induction cs as [|c cs IH]; intros h g g' HI HW HR; cbn [trace s_brun brun fold_left].
+    intros HI HR HW. unfold bstep_at.
+    exact (bstep_WF_rep _ g c h' rt r g' (Inv_prefer _ h HI) (Rep_prefer _ h g HR) (WF_prefer _ h HW)).
+  Qed.
+  Lemma brun_refines_wf cs : forall h g g', Inv h -> WF h -> Rep h g ->
+    s_brun g (trace_at h cs) = Next g' -> Inv (brun_at h cs) /\ WF (brun_at h cs) /\ Rep (brun_at h cs) g'.
+  Proof.
+    induction cs as [|[c pick] cs IH]; intros h g g' HI HW HR; cbn [trace_at s_brun brun_at fold_left].
     - intros [= <-]. auto.
-    - destruct (bstep h c) as [[h1 rt] r] eqn:E. cbn [s_brun fst].
-      pose proof (bstep_refines h g c h1 rt r HI HR E) as Hs.
+    - cbn [fst snd]. destruct (bstep_at pick h c) as [[h1 rt] r] eqn:E. cbn [s_brun fst].
+      pose proof (bstep_at_refines pick h g c h1 rt r HI HR E) as Hs.
       destruct (s_bstep g c rt) as [| |g1] eqn:Es; try discriminate.
       destruct Hs as (_ & HI1 & HR1). intros H.
-      exact (IH h1 g1 g' HI1 (bstep_WF_rep h g c h1 rt r g1 HI HR HW E Es) HR1 H).
+      exact (IH h1 g1 g' HI1 (bstep_at_WF_rep pick h g c h1 rt r g1 HI HR HW E Es) HR1 H).
   Qed.
 
-  Theorem step_refines h g c h' rt r : Inv h -> WF h -> Rep h g -> annot_ok c -> step h c = (h', rt, r) ->
+  Theorem step_refines pick h g c h' rt r : Inv h -> WF h -> Rep h g -> annot_ok c -> step pick h c = (h', rt, r) ->
     match s_step g c rt with
     | OutOfScope => True
     | Bad => False
@@ -1271,60 +1300,61 @@ Section Ins.
     end.
   Proof.
     intros HI HW HR Han Hst. destruct c as [b|o m br src p]; cbn [step s_step] in *.
-    - pose proof (bstep_refines h g b h' rt r HI HR Hst) as H.
+    - pose proof (bstep_at_refines pick h g b h' rt r HI HR Hst) as H.
       destruct (s_bstep g b rt) as [| |g'] eqn:Es; try exact H.
       destruct H as (Hr & HI' & HR'). split; [exact Hr|]. split; [exact HI'|]. split; [|exact HR'].
-      exact (bstep_WF_rep h g b h' rt r g' HI HR HW Hst Es).
+      exact (bstep_at_WF_rep pick h g b h' rt r g' HI HR HW Hst Es).
     - destruct Han as [-> Hsrc].
       destruct (s_brun (s_init 0 o m) src) as [| |gB] eqn:EB; try exact I.
       destruct (a_live g (dflt g p)) eqn:Hp; [|exact I].
       destruct (init_inv o m) as [HI0 HR0]. rewrite Hsrc in EB.
-      destruct (brun_refines_wf (map fst src) (init o m) _ gB HI0 (init_WF o m) HR0 EB) as (HIB & HWB & HRB).
+      destruct (brun_refines_wf src (init o m) _ gB HI0 (init_WF o m) HR0 EB) as (HIB & HWB & HRB).
       assert (Hdf : dflt g p = match p with Some x => x | None => root h end).
       { destruct p; [reflexivity|]. cbn. destruct HR as (_ & _ & _ & E). now rewrite E. }
       assert (HpA : get_node h (match p with Some x => x | None => root h end) <> None).
       { rewrite <- Hdf. now apply (rep_live h g _ HR). }
-      destruct (insert_rep h (brun (init o m) (map fst src)) g gB p HI HIB HWB HR HRB HpA) as (A' & mp & Hins & HI' & Hmok & HR').
+      destruct (insert_rep (om_of pick) h (brun_at (init o m) src) g gB p HI HIB HWB HR HRB HpA) as (A' & mp & Hins & HI' & Hmok & HR').
       rewrite Hins in Hst. injection Hst as <- <- <-. rewrite Hmok. split; [reflexivity|]. split; [exact HI'|].
       split; [|now rewrite Hdf].
-      destruct (insert_ok h (brun (init o m) (map fst src)) p HI HIB HWB HpA) as (A'' & mp' & Hins' & _ & HIF).
+      destruct (insert_ok (om_of pick) h (brun_at (init o m) src) p HI HIB HWB HpA) as (A'' & mp' & Hins' & _ & HIF).
       rewrite Hins in Hins'. injection Hins' as <- <-.
       exact (insert_WF h _ _ mp A' HI HIB HpA HW HWB HIF).
   Qed.
 
-  Fixpoint ctrace (h : hugr) (cs : list (cmd Op Meta)) : list (cmd Op Meta * ret) :=
+  (* a history with its choices, as the specification sees it: every command with the value the model returned *)
+  Fixpoint ctrace (h : hugr) (cs : list (cmd Op Meta * ret)) : list (cmd Op Meta * ret) :=
     match cs with
     | [] => []
-    | c :: r => let '(h', rt, _) := step h c in (c, rt) :: ctrace h' r
+    | (c, pick) :: r => let '(h', rt, _) := step pick h c in (c, rt) :: ctrace h' r
     end.
   Fixpoint s_run (g : agraph) (l : list (cmd Op Meta * ret)) : sres Op Meta :=
     match l with
     | [] => Next g
     | (c, rt) :: r => match s_step g c rt with Next g' => s_run g' r | e => e end
     end.
-  Theorem run_refines cs : forall h g g', Inv h -> WF h -> Rep h g -> Forall annot_ok cs ->
+  Theorem run_refines cs : forall h g g', Inv h -> WF h -> Rep h g -> Forall annot_ok (map fst cs) ->
     s_run g (ctrace h cs) = Next g' -> Inv (run h cs) /\ WF (run h cs) /\ Rep (run h cs) g'.
   Proof.
-    induction cs as [|c cs IH]; intros h g g' HI HW HR Han; cbn [ctrace s_run run fold_left].
+    induction cs as [|[c pick] cs IH]; intros h g g' HI HW HR Han; cbn [ctrace s_run run fold_left].
     - intros [= <-]. auto.
-    - inversion Han; subst. destruct (step h c) as [[h1 rt] r] eqn:E. cbn [s_run fst].
-      pose proof (step_refines h g c h1 rt r HI HW HR H1 E) as Hs.
+    - cbn [map fst snd] in *. inversion Han; subst. destruct (step pick h c) as [[h1 rt] r] eqn:E. cbn [s_run fst].
+      pose proof (step_refines pick h g c h1 rt r HI HW HR H1 E) as Hs.
       destruct (s_step g c rt) as [| |g1]; try discriminate.
       destruct Hs as (_ & HI1 & HW1 & HR1). intros H. exact (IH h1 g1 g' HI1 HW1 HR1 H2 H).
   Qed.
-  Theorem run_never_bad cs : forall h g, Inv h -> WF h -> Rep h g -> Forall annot_ok cs -> s_run g (ctrace h cs) <> Bad.
+  Theorem run_never_bad cs : forall h g, Inv h -> WF h -> Rep h g -> Forall annot_ok (map fst cs) -> s_run g (ctrace h cs) <> Bad.
   Proof.
-    induction cs as [|c cs IH]; intros h g HI HW HR Han; cbn [ctrace s_run]; [discriminate|].
-    inversion Han; subst. destruct (step h c) as [[h1 rt] r] eqn:E. cbn [s_run].
-    pose proof (step_refines h g c h1 rt r HI HW HR H1 E) as Hs.
+    induction cs as [|[c pick] cs IH]; intros h g HI HW HR Han; cbn [ctrace s_run]; [discriminate|].
+    cbn [map fst] in Han. inversion Han; subst. destruct (step pick h c) as [[h1 rt] r] eqn:E. cbn [s_run].
+    pose proof (step_refines pick h g c h1 rt r HI HW HR H1 E) as Hs.
     destruct (s_step g c rt) as [| |g1]; [discriminate|contradiction|].
     destruct Hs as (_ & HI1 & HW1 & HR1). now apply IH.
   Qed.
-  Theorem store_refines_spec o m cs g' : Forall annot_ok cs ->
+  Theorem store_refines_spec o m cs g' : Forall annot_ok (map fst cs) ->
     s_run (s_init 0 o m) (ctrace (init o m) cs) = Next g' ->
     Inv (run (init o m) cs) /\ WF (run (init o m) cs) /\ Rep (run (init o m) cs) g'.
   Proof. destruct (init_inv o m) as [HI HR]. exact (run_refines cs _ _ g' HI (init_WF o m) HR). Qed.
-  Theorem spec_never_rejects o m cs : Forall annot_ok cs -> s_run (s_init 0 o m) (ctrace (init o m) cs) <> Bad.
+  Theorem spec_never_rejects o m cs : Forall annot_ok (map fst cs) -> s_run (s_init 0 o m) (ctrace (init o m) cs) <> Bad.
   Proof. destruct (init_inv o m) as [HI HR]. exact (run_never_bad cs _ _ HI (init_WF o m) HR). Qed.
 
   (* ---------------------------------------------------------------- the monitored predicate holds of the model *)
@@ -1651,16 +1681,16 @@ Section Ins.
      from the wire's source to the ancestor of the inserted root that is its sibling (once, and only if A did not
      have it); operations, hierarchy and metadata of all nodes are those of the plain insertion (only port counts
      may be re-declared) *)
-  Theorem insert_wrappers_attach_wires (A B : hugr) (p : nid) (ws : list port) ki ko :
+  Theorem insert_wrappers_attach_wires (om : mapping) (A B : hugr) (p : nid) (ws : list port) ki ko :
     Inv A -> Inv B -> WF B -> get_node A p <> None -> wires_guard (abs A) p ws = true ->
     exists A' A'' m r',
-      insert_hugr A B (Some p) = (A', m, Ok) /\ IsoFrame A B p m A' /\ mget m (root B) = Some r' /\
-      insert_wrapped A B p ws ki ko = (A'', m, Ok) /\ root A'' = root A /\
+      insert_hugr om A B (Some p) = (A', m, Ok) /\ IsoFrame A B p m A' /\ mget m (root B) = Some r' /\
+      insert_wrapped om A B p ws ki ko = (A'', m, Ok) /\ root A'' = root A /\
       Permutation (q_links A'') (q_links A' ++ wires_extra (abs A) p r' ws) /\
       forall x, option_map shape4 (get_node A'' x) = option_map shape4 (get_node A' x).
   Proof.
     intros HIA HIB HWF HpA Hws.
-    destruct (insert_ok A B (Some p) HIA HIB HWF HpA) as (A' & m & Hins & HI' & HIF). cbn in HIF.
+    destruct (insert_ok om A B (Some p) HIA HIB HWF HpA) as (A' & m & Hins & HI' & HIF). cbn in HIF.
     pose proof HIB as (_ & _ & HCB & ((rb & Erb & Prb) & _)).
     assert (Hr : exists r', mget m (root B) = Some r').
     { destruct (mget m (root B)) as [r'|] eqn:E; [eauto|]. exfalso. apply (proj2 (if_dom _ _ _ _ _ HIF (root B))); congruence. }
@@ -1710,12 +1740,12 @@ Section Ins.
       destruct (H w ltac:(now left)) as (d & Ed & Ep). unfold order_of_wire, wire_anchor. now rewrite Ed, Ep, Nat.eqb_refl. }
     rewrite E. cbn. now rewrite app_nil_r.
   Qed.
-  Theorem insert_wrappers_attach_sibling_wires (A B : hugr) (p : nid) (ws : list port) ki ko :
+  Theorem insert_wrappers_attach_sibling_wires (om : mapping) (A B : hugr) (p : nid) (ws : list port) ki ko :
     Inv A -> Inv B -> WF B -> get_node A p <> None ->
     (forall w, In w ws -> (exists d, get_node A (fst w) = Some d /\ nd_parent d = Some p) /\ (-1 <= snd w)%Z) ->
     exists A' A'' m r',
-      insert_hugr A B (Some p) = (A', m, Ok) /\ IsoFrame A B p m A' /\ mget m (root B) = Some r' /\
-      insert_wrapped A B p ws ki ko = (A'', m, Ok) /\ root A'' = root A /\
+      insert_hugr om A B (Some p) = (A', m, Ok) /\ IsoFrame A B p m A' /\ mget m (root B) = Some r' /\
+      insert_wrapped om A B p ws ki ko = (A'', m, Ok) /\ root A'' = root A /\
       Permutation (q_links A'') (q_links A' ++ wire_links r' 0 ws) /\
       forall x, option_map shape4 (get_node A'' x) = option_map shape4 (get_node A' x).
   Proof.
@@ -1725,7 +1755,7 @@ Section Ins.
     assert (Hg : wires_guard (abs A) p ws = true).
     { apply forallb_forall. intros w Hin. destruct (Hloc w Hin) as (d & Ed & Ep). unfold wire_anchor.
       rewrite Ed, Ep, Nat.eqb_refl. apply Z.leb_le. apply (Hws w Hin). }
-    destruct (insert_wrappers_attach_wires A B p ws ki ko HIA HIB HWF HpA Hg) as (A' & A'' & m & r' & H).
+    destruct (insert_wrappers_attach_wires om A B p ws ki ko HIA HIB HWF HpA Hg) as (A' & A'' & m & r' & H).
     exists A', A'', m, r'. now rewrite (wires_extra_local (abs A) p r' ws Hloc) in H.
   Qed.
 End Ins.
